@@ -26,7 +26,9 @@ MetaOf(e) == [rel |-> e.rel,
               d |-> IF e.rel = "translate" THEN e.d ELSE <<0, 0>>,
               t |-> IF e.rel = "sym" THEN e.t ELSE 0,
               big |-> e.big, touch |-> e.touch, opaque |-> e.opaque, nedges |-> e.nedges,
-              wit |-> IF "wit" \in DOMAIN e THEN e.wit ELSE 0]
+              wit |-> IF "wit" \in DOMAIN e THEN e.wit ELSE 0,
+              fw |-> IF "fw" \in DOMAIN e THEN e.fw ELSE FALSE,
+              smp |-> IF "smp" \in DOMAIN e THEN e.smp ELSE <<>>]
 
 Init == r \in 1..Len(Sessions) /\ l = 1 /\ BInit
 
